@@ -69,6 +69,22 @@ CLAIMED = {
              "is C11's business and is also exercised here (documents go through the real dom walker).",
         technique="Coq proof (structural induction over trees, simulation of the event consumer) + translated "
                   "tables + differential correspondence"),
+    "C20": dict(
+        category="proof",
+        text="Character-class tables regenerated from the compiled regexes and from the XML 1.0 production text in "
+             "the module. Theorems: within the BMP the regexes are exactly the complements of the productions "
+             "(structural complement lemma + vm_compute); every non-empty BMP name is coerced to NameStart NameChar* "
+             "(exhaustive 65 536-point sweep for escapes, lifted by all_below_spec); legal names unchanged, colon "
+             "always coerced; round trip and injectivity for names without an escape pattern (PARTIAL: for the "
+             "single-pass decoder; the code's set-order replacement is modelled and tied by correspondence but its "
+             "order-independence is not proved); the comment loop terminates for every input (two passes suffice) "
+             "and the result has no '--'/trailing '-'; coerced public identifiers contain only PubidChars for ALL "
+             "code points. Every BMP code point in both positions is additionally checked against expat on every run.",
+        design_ref="DESIGN.md 3 C20",
+        note="expat as XML-name oracle; non-BMP names are a recorded finding; theorems are for BMP names as the "
+             "property's quantifier is. str.replace chains modelled per character.",
+        technique="Coq proof (finite sweeps lifted to quantified statements, structural lemmas over range tables, "
+                  "induction for the decoder round trip and loop termination) + differential correspondence"),
 }
 
 PENDING_REASON = "not yet built in this round (planned: Coq model + theorems per DESIGN.md section 3); no check is registered, so nothing is claimed"
